@@ -262,6 +262,9 @@ class AxolotlManager(object):
         except UntrustedIdentityException as ex:
             if autotrust:
                 self.trust_identity(ex.getName(), ex.getIdentityKey())
+                # the bundle was refused before any session was built: build it now that the key is trusted,
+                # callers go on to encrypt with this session
+                session_builder.processPreKeyBundle(prekeybundle)
             else:
                 raise exceptions.UntrustedIdentityException(ex.getName(), ex.getIdentityKey())
 
